@@ -156,7 +156,7 @@ pub fn gen_cfg(r: &mut Sm, p: &Profile, codec: CodecKind) -> Cfg {
 pub fn gen_setup(r: &mut Sm, p: &Profile) -> Setup {
     let codec = *r.pick(&CodecKind::ALL);
     let handler = if r.chance(p.handler_pct) {
-        HandlerKind::Kv { deny: if r.chance(40) { r.below(64) as u16 } else { 0 }, mode: r.below(4) as u8 }
+        HandlerKind::Kv { deny: if r.chance(40) { r.below(64) as u16 } else { 0 }, mode: r.below(5) as u8 }
     } else {
         HandlerKind::None
     };
@@ -417,7 +417,15 @@ pub fn gen_op(r: &mut Sm, p: &Profile, inst: &Instance, ctx: &Ctx) -> Op {
                 0 => c.max_tx = *r.pick(&[1u8, 2, 5, 255]),
                 1 => c.k = r.range(1, 4) as usize,
                 2 => c.notify_down = !c.notify_down,
-                3 => c.probe_period += 1,
+                3 => {
+                    c.probe_period += 1;
+                    // an invalid configuration must leave every parameter alone
+                    if r.chance(60) {
+                        c.mps = *r.pick(&[40usize, 64, 700, 3000]);
+                        c.max_tx = 9;
+                        c.notify_down = !c.notify_down;
+                    }
+                }
                 4 => {
                     c.pa = Some((4000, 1));
                     c.pg = None;
